@@ -1,0 +1,27 @@
+//go:build verif
+
+package parse_es
+
+// Contracts for the verification harness under /verif (comment-only file).
+//
+// C13: a time-out event has no tree (Root == nil); an action that passes it on
+// makes the following actions and the output dereference nil on the processor
+// goroutine.  parse_es answers a time-out with Discard whatever state the bulk state
+// machine is in, and passes an event only as the document line of an index / create
+// action.
+
+//@ func (*Plugin).Do
+//@   option allow-exit yes
+//@   requires event != nil
+//@   ensures event.kind == pipeline.EventKindTimeout ==> result == pipeline.ActionDiscard && p.passNext == old(p.passNext) && p.discardNext == old(p.discardNext)
+//@   ensures result == pipeline.ActionPass ==> event.kind != pipeline.EventKindTimeout && old(p.passNext) && !p.passNext
+//@   ensures event.kind != pipeline.EventKindTimeout && old(p.passNext) && !old(p.discardNext) ==> result == pipeline.ActionPass
+//@   ensures event.kind != pipeline.EventKindTimeout && old(p.discardNext) && !old(p.passNext) ==> result == pipeline.ActionCollapse && !p.discardNext
+//@   callee Dig(path) (n)
+//@     pure
+//@   callee EncodeToString() (s)
+//@     pure
+//@   callee Errorf(f, a)
+//@     pure
+//@   callee Error(m, f)
+//@     pure
